@@ -14,6 +14,11 @@ ill-formed answers `bad-op`).
   GEN <start> <startPrime> <eoi> <prods>
                                the model generator `gen G` (level B): `gen conflicts=<0|1> n=<states>
                                items=<..> actions=<..|?> gotos=<..>` | `gen out-of-fuel`
+  MARKALL <src> <dst> <fuel> <examples>
+                               model of the `mark_error` loop of make_parser: `marked <n>` (result stored
+                               in <dst>) | `refused <k>` (example k returns a message).  examples:
+                               `syms|where|code;...`, where = `E` (end of input) | `A<i>` (ANY_TOKEN at
+                               index i) | `T<i>` (the token at index i)
   LRTERM <slot>                `terminates` | `diverge below=<u|-> state=<s> key=<a>` (termination analysis)
   BISIM <slotA> <slotB>        `bisim ok pairs=<n> identity=<bool>` | `bisim mismatch path=<syms> at=<s>,<t> why=<..>`
   SAMERULES <slotA> <slotB>    `same` | `differ`
@@ -29,6 +34,7 @@ import Emboss.Model.Lr1Valid
 import Emboss.Model.Lr1Bisim
 import Emboss.Model.Lr1Term
 import Emboss.Model.Lr1Gen
+import Emboss.Model.Merr
 import Std.Data.HashMap
 open Emboss.Lr1
 
@@ -139,6 +145,29 @@ def showResult : Result → String
     s!"error {showCode c} {i} {s} " ++ (if e.isEmpty then "-" else ",".intercalate (e.map toString))
   | .internal w => "internal " ++ w
   | .outOfFuel => "out-of-fuel"
+
+def parseExample (s : String) : Option ErrExample :=
+  match s.splitOn "|" with
+  | [syms, wh, code] => do
+    let syms ← parseNats (fld syms)
+    let toks : List Token := syms.zipIdx.map (fun (x, i) => (⟨x, i⟩ : Token))
+    let code ← code.toNat?
+    if wh == "E" then pure ⟨toks, .eoi, code⟩
+    else
+      let i ← (wh.drop 1).toNat?
+      let t ← toks[i]?
+      if wh.startsWith "A" then pure ⟨toks, .any t, code⟩
+      else if wh.startsWith "T" then pure ⟨toks, .tok t, code⟩
+      else none
+  | _ => none
+
+/-- `markAll` that also reports the index of the first refused example -/
+def markAllIdx (A : Automaton) (fuel : Nat) : Nat → List ErrExample → Except Nat Automaton
+  | _, [] => .ok A
+  | k, e :: es =>
+    match markError A fuel e with
+    | some B => markAllIdx B fuel (k + 1) es
+    | none => .error k
 
 def showAction : Action → String
   | .shift s => s!"S{s}"
@@ -286,6 +315,13 @@ def handlePure (st : St) (line : String) : St × String :=
            | some o => showGen o
            | none => "gen out-of-fuel")
     | _, _, _, _ => (st, "bad-op")
+  | ["MARKALL", src, dst, fuel, exs] =>
+    match st.auts[src]?, fuel.toNat?, (splitNE (fld exs) ";").mapM parseExample with
+    | some a, some fuel, some exs =>
+      match markAllIdx a fuel 0 exs with
+      | .ok b => ({ st with auts := st.auts.insert dst b }, s!"marked {exs.length}")
+      | .error k => (st, s!"refused {k}")
+    | _, _, _ => (st, "bad-op")
   | ["LRTERM", slot] =>
     match st.auts[slot]? with
     | some a =>
